@@ -570,4 +570,55 @@ def sigOK (sig : List Param) (withPosition : Bool) : Bool :=
       rest.all (·.dflt.isSome)
   | _, _ => false
 
+/-! ### wave-5 follow-up: anchor points at the level of binary64 values
+
+  A corner / edge component of a named position is a *selection* of one of the four bounds
+  (exact for every float); a midpoint component is `(a + b) / 2`, which a binary64 implementation
+  delivers rounded.  `pointAtM` is `pointAt` with the two midpoint values as parameters, so that
+  one statement covers the exact model (`mt = (st + en) / 2`) and every rounded evaluation
+  (`mt = rnd ((st + en) / 2)`). -/
+
+def timeSelM (b : Bounds) (mt : Rat) (x : String) : Option Rat :=
+  if x = "left" then some b.st
+  else if x = "center" then some mt
+  else if x = "right" then some b.en
+  else none
+
+def freqSelM (b : Bounds) (mf : Rat) (y : String) : Option Rat :=
+  if y = "bottom" then some b.lo
+  else if y = "center" then some mf
+  else if y = "top" then some b.hi
+  else none
+
+/-- the nine bounds positions with the midpoints of the two axes given as `mt`, `mf` -/
+def pointAtM (mt mf : Rat) (pos : String) (b : Bounds) : Except Err Pt :=
+  if ¬ pos ∈ boundsPositions then .error .invalid
+  else if pos = "center" then .ok (mt, mf)
+  else match splitDash pos with
+    | [y, x] =>
+      match timeSelM b mt x, freqSelM b mf y with
+      | some t, some f => .ok (t, f)
+      | _, _ => .error .key
+    | _ => .error .invalid
+
+/-- `x` is an acceptable binary64 evaluation of the midpoint of `[a, c]`: inside the interval
+    and within `tol` (relative to the larger bound) of the exact midpoint -/
+def nearMid (tol a c x : Rat) : Bool :=
+  let ab (v : Rat) : Rat := if v < 0 then -v else v
+  decide (a ≤ x) && decide (x ≤ c) && decide (ab (x - (a + c) / 2) ≤ tol * max (ab a) (ab c))
+
+/-- the time / frequency component of `pos` is a midpoint -/
+def timeIsMid (pos : String) : Bool := pos = "center" || pos = "top-center" || pos = "bottom-center"
+def freqIsMid (pos : String) : Bool := pos = "center" || pos = "center-left" || pos = "center-right"
+
+/-- executable statement of the anchor-point clause on an observed point `p`, judged on the
+    values themselves: `p` lies inside the bounds, every corner / edge component *is* the
+    corresponding bound (the table applied with `p`'s own components as midpoints gives `p`
+    back), every midpoint component is inside its interval and `tol`-near the exact midpoint -/
+def holdsAnchor (tol : Rat) (b : Bounds) (pos : String) (p : Pt) : Bool :=
+  decide (pos ∈ boundsPositions) && inside b p &&
+  (match pointAtM p.1 p.2 pos b with | .ok q => decide (q = p) | .error _ => false) &&
+  (!timeIsMid pos || nearMid tol b.st b.en p.1) &&
+  (!freqIsMid pos || nearMid tol b.lo b.hi p.2)
+
 end SE.Bnd
